@@ -88,6 +88,8 @@ def run(chk, scratch):
         d = os.path.join(scratch, "w%d" % seed)
         w = world2.rich_world(seed, n_chroms=4, genes_per_chrom=3, reads_per_t=6, hidden_cov=5, zoo=world2.ZOO_ALL)
         pipeline.write_world(w, d)
+        # every second mapped record: input of an EARLIER run into the same output folder (see below)
+        w.write_bam(os.path.join(d, "half.bam"), reads=[r for i, r in enumerate(w.reads) if i % 2 == 0])
         worlds[seed] = (d, w)
 
     def one(job):
@@ -95,6 +97,9 @@ def run(chk, scratch):
         d, w = worlds[seed]
         out = os.path.join(d, "out_%s_%s_%s" % (g, t, n))
         ev = out + "_ev"
+        if (len(g) + len(t) + seed) % 3 == 0:
+            # the output folder already holds the results of an earlier run on other reads (same prefix): the run below uses --force
+            r0 = pipeline.run(d, out, threads=1, bam=[os.path.join(d, "half.bam")], home=os.path.join(d, "home_%s_%s_%s" % (g, t, n)))
         r = pipeline.run(d, out, threads=1 + (len(g) + len(t)) % 2, extra=["--gene_quantification", g, "--transcript_quantification", t,
                                                    "--normalization_method", n], home=os.path.join(d, "home_%s_%s_%s" % (g, t, n)),
                          mon=["counter"], events=ev)
@@ -165,6 +170,10 @@ def run(chk, scratch):
                         exp_rec[x] += wgt_rec
                         types_of[x].add(atype)
             table = o.counts(fname)
+            for f_ in (fname, fname.replace("counts", "tpm")):
+                dup = parse.duplicate_rows(o.path(f_))
+                if dup:
+                    chk.violation("table-row-repeated:%s" % level, "%s: %s has %d feature ids on more than one line, e.g. %s" % (desc, f_, len(dup), dup[:3]), wit)
             stats = read_stats_lines(o.path(fname))
             for feat, val in table.items():
                 if feat.startswith("__"):
@@ -239,6 +248,9 @@ def run(chk, scratch):
                 for m in cms:
                     exp_rec_m[m] += w2
         table = o.counts("transcript_model_counts.tsv")
+        dup = parse.duplicate_rows(o.path("transcript_model_counts.tsv"))
+        if dup:
+            chk.violation("table-row-repeated:transcript_model", "%s: transcript_model_counts.tsv has %d ids on more than one line, e.g. %s" % (desc, len(dup), dup[:3]), wit)
         for m, val in table.items():
             if m.startswith("__"):
                 continue
